@@ -6,7 +6,10 @@
 
   Conventions
   * a Python `float` is its exact rational value (`Num.flt q`); float ROUNDING ERROR is not modelled
-    (so `x / s`, `abs(x) * 10**d` … are the exact quotients/products).  Python `int` is `Num.int`.
+    (so `x / s`, `abs(x) * 10**d` … are the exact quotients/products), and neither are OVERFLOW /
+    UNDERFLOW of a float intermediate (`abs(x) * 10**d` beyond the doubles, `10**d` with |d| ≥ 309
+    meeting a float — OverflowError in Python —, `abs(i) / 10**k` underflowing to 0.0).
+    Python `int` is `Num.int`.
     The int/float distinction of every result is modelled.
   * `.error e` = the Python function RAISED (TypeError … → `#ERROR!`); a *returned* error value is
     `.ok (.err e)`.
@@ -17,6 +20,7 @@
   The magic numbers / tables come from `HotXL.Generated.Round` (regenerated from /repo).
 -/
 import HotXL.Model.Fn.Common
+import HotXL.Model.Fn.Math
 import HotXL.Generated.Round
 
 namespace HotXL.Fn.Round
@@ -68,12 +72,34 @@ def pyRound (x : Num) (d : Int) : Num :=
       .int (halfEven ((i : Rat) / (m : Rat)) * m)
   | .flt q => .flt ((halfEven (q * pow10 d) : Rat) / pow10 d)
 
-/-- ROUND(number, digits) -/
+/-- `number * 0` / `number + 0` keep the kind of the number: an int stays an int (`True + 0 = 1`) -/
+def mulZero : Num → Num
+  | .int _ => .int 0
+  | .flt _ => .flt 0
+
+/-- `_place_beyond(number, digits)`: `-digits > max(1024, size)` with `size` the bit length of an
+    int number and 0 for a float.  Then one unit of the place, `10 ** -digits`, is more than twice
+    the magnitude of the number (`10^k > 2^k`, `k > bit length`; every float is below `2^1024`).
+    `digits` is compared as a number, so this also applies to a float `digits`. -/
+def placeBeyond (x dn : Num) : Bool :=
+  let size : Int :=
+    match x with
+    | .int i => (Math.bitLength i : Int)
+    | .flt _ => Generated.placeFloatSize
+  decide (((max Generated.placeMinDigits size : Int) : Rat) < -Num.toRat dn)
+
+/-- ROUND(number, digits): where the place is beyond the number (tested BEFORE `round` looks at the
+    type of `digits`) the nearest multiple is 0: `number * 0` at once (`round()` would compute
+    `10 ** -digits` exactly) -/
 def ROUND : Builtin
   | [a, b] =>
     match parseNumber a, parseNumber b with
-    | .ok x, .ok (.int d) => .ok (.num (pyRound x d))
-    | .ok _, .ok (.flt _) => .error .error          -- TypeError: 'float' object cannot be interpreted as an integer
+    | .ok x, .ok dn =>
+      if placeBeyond x dn then .ok (.num (mulZero x))
+      else
+        (match dn with
+         | .int d => .ok (.num (pyRound x d))
+         | .flt _ => .error .error)          -- TypeError: 'float' object cannot be interpreted as an integer
     | _, _ => .ok (.err .value)
   | _ => .error .error
 
@@ -93,10 +119,24 @@ def roundDirNeg (up : Bool) (q : Rat) (d : Int) : Int :=
   let k : Int := if up then scaled.ceil else scaled.floor
   s * k * m
 
+/-- the upper guard of ROUNDUP / ROUNDDOWN (`digits > 1074`) -/
+def roundDirMax (up : Bool) : Int := if up then Generated.roundupDigitsMax else Generated.rounddownDigitsMax
+
+/-- ROUNDUP / ROUNDDOWN.  The guards come first (and compare `digits` as a number, so they also
+    apply to a non-integral float `digits`):
+    `digits > 1074` gives `number + 0` (every float is a multiple of 2^-1074 = 5^1074·10^-1074:
+    nothing to round);
+    a place beyond the number (`placeBeyond`) gives `number * 0` — except ROUNDUP of a non-zero
+    number, which is `#NUM!` (one unit of that place is beyond the range of XL numbers).
+    Between the guards `10 ** |digits|` has at most max(1075, bit length + 1) digits: bounded. -/
 def roundDirFn (up : Bool) : Builtin
   | [a, b] =>
     match parseNumber a, parseNumber b with
     | .ok x, .ok dn =>
+      if (roundDirMax up : Rat) < Num.toRat dn then .ok (.num x)
+      else if placeBeyond x dn then
+        (if up && !Num.isZero x then .ok (.err .num) else .ok (.num (mulZero x)))
+      else
       (match integral? dn with
        | some d =>
          if d < 0 then
@@ -220,23 +260,24 @@ def dfact : Nat → Nat
   | 1 => 1
   | n + 2 => (n + 2) * dfact n
 
-/-- FACT(number) -/
+/-- FACT(number): `#NUM!` below 0 and from 171 on (171! is beyond the range of XL numbers; the
+    comparison is on the parsed number, BEFORE `int()` truncates it: FACT(170.9) = 170!) -/
 def FACT : Builtin
   | [a] =>
     match parseNumber a with
     | .error e => .ok (.err e)
     | .ok n =>
-      if Num.toRat n < 0 then .ok (.err .num)
+      if Num.toRat n < 0 || (Generated.factLimit : Rat) ≤ Num.toRat n then .ok (.err .num)
       else .ok (.num (.int (fact (ratTrunc (Num.toRat n)).toNat)))
   | _ => .error .error
 
-/-- FACTDOUBLE(number) -/
+/-- FACTDOUBLE(number): `#NUM!` below 0 and from 301 on (301!! is beyond the range of XL numbers) -/
 def FACTDOUBLE : Builtin
   | [a] =>
     match parseNumber a with
     | .error e => .ok (.err e)
     | .ok n =>
-      if Num.toRat n < 0 then .ok (.err .num)
+      if Num.toRat n < 0 || (Generated.factdoubleLimit : Rat) ≤ Num.toRat n then .ok (.err .num)
       else .ok (.num (.int (dfact (ratTrunc (Num.toRat n)).toNat)))
   | _ => .error .error
 
